@@ -467,6 +467,14 @@ def annotate(
 
     result = 0
     for path in paths:
+        if not path.is_file():
+            # FILE.license exists, but is e.g. a FIFO or a directory. Reading
+            # it could block forever.
+            click.echo(
+                _("Error: '{path}' is not a regular file").format(path=path)
+            )
+            result += 1
+            continue
         binary = is_binary(str(path))
         if binary or is_uncommentable(path) or force_dot_license:
             new_path = _determine_license_suffix_path(path)
